@@ -205,6 +205,9 @@ def plan(rng, tier):
     dcfg["nk"] = nk
     dcfg["nv"] = rng.choice([2, 3])
     dcfg["ext"] = rng.random() < 0.15
+    if rng.random() < 0.15:
+        # the stored object is an instance of a trivial user subclass
+        dcfg["sub"] = True
     cfg = {"dom": dcfg, "kind": kind, "impl": rng.choice(["c", "py"]),
            "where": where, "protocol": rng.choice([2, 3, 3, 4, 5])}
     if where == "single":
@@ -300,7 +303,10 @@ def _outcome_of(fn):
 
 def _check_rec(rec, dom, cfg, ctx):
     name = rec.get("cls")
-    if name is None or not rec.get("mod", "").startswith("BTrees."):
+    if name is not None and rec.get("mod") == "sim.subcls":
+        name = name[4:]         # Sub_OOBTree: a trivial user subclass
+        ctx.probe("seam-subclass")
+    elif name is None or not rec.get("mod", "").startswith("BTrees."):
         return
     fam = dom.fam
     kindname = name[len(fam):]
